@@ -534,7 +534,7 @@ CONDITIONS = [
               '01789_:.-+xbeEaf that the loader resolves to '
               'int/float/bool/null'},
     {'fn': 'getvalue_vs_load', 'slices': list(range(16)), 'quick': None,
-     'thorough': 1500,
+     'thorough': 600,
      'bound': 'every string of length 1..4 over the alphabet '
               '01789_:.-+xbeEaf that the loader resolves to '
               'int/float/bool/null'},
